@@ -9,8 +9,8 @@
  *
  * Sections are selected by macros defined before the include:
  *   RP_XQUAD  RP_ISSQUARE  RP_ADD_GE  RP_ADD_VAR  RP_PED_SMALL  RP_PED  RP_PUB_EXPAND
- *   RP_BORRO_VERIFY  RP_BORRO_SIGN  RP_GENRAND  RP_HMAC  RP_MEMCPY  RP_ECMULT_WATCH
- *   proved leaf contracts: RP_SET_B32  RP_FE_SET_B32_LIMIT  RP_GET_B32  RP_CH32XOR  RP_MEMCPY_WHOLE
+ *   RP_BORRO_VERIFY  RP_BORRO_SIGN  RP_GENRAND  RP_RECOVER  RP_HMAC  RP_MEMCPY  RP_ECMULT_WATCH
+ *   proved leaf contracts: RP_LEAF_ENFORCE (C10.leaf_* units)  RP_STUB_READERS  RP_GET_B32  RP_CH32XOR  RP_MEMCPY_WHOLE
  * RP_ECMULT_WATCH brings its own contracts for secp256k1_ecmult / secp256k1_ge_set_gej_var and
  * therefore must be used with hash_log.h/pre.h, not with assumed.h. */
 #ifndef VERIF_ASSUMED_RANGEPROOF_H
@@ -50,10 +50,17 @@ static inline size_t rp_sum(const size_t *rsizes, size_t n) {
 
 /* ---- lift_x oracle: is there a curve point with this x (and square y)?  verdict log ---- */
 #ifdef RP_XQUAD
-int g_xq_n, g_xq_watch, g_xq_hit, g_xq_v, g_xq_and /* conjunction of all verdicts so far */; secp256k1_fe g_xq_x; secp256k1_ge g_xq_r;
+struct g_xq_log { int n; int hit; int v; int all /* conjunction of all verdicts so far */; secp256k1_fe x; secp256k1_ge r; } g_xq;
+#define g_xq_n g_xq.n
+#define g_xq_hit g_xq.hit
+#define g_xq_v g_xq.v
+#define g_xq_and g_xq.all /* conjunction of all verdicts so far */
+#define g_xq_x g_xq.x
+#define g_xq_r g_xq.r
+int g_xq_watch;
 static int secp256k1_ge_set_xquad(secp256k1_ge *r, const secp256k1_fe *x)
 __CPROVER_requires(__CPROVER_w_ok(r, sizeof(*r)) && __CPROVER_r_ok(x, sizeof(*x)) && fe_mag(x, 1))
-__CPROVER_assigns(*r, g_xq_n, g_xq_hit, g_xq_v, g_xq_x, g_xq_r, g_xq_and)
+__CPROVER_assigns(*r, g_xq)
 __CPROVER_ensures(__CPROVER_return_value == 0 || __CPROVER_return_value == 1)
 __CPROVER_ensures(ge_ok1(r) && r->infinity == 0 && FE_EQ_OLD(r->x, *x))          /* r->x = *x is a copy in the code, not algebra */
 __CPROVER_ensures(g_xq_n == __CPROVER_old(g_xq_n) + 1 && g_xq_and == (__CPROVER_old(g_xq_and) && __CPROVER_return_value))
@@ -65,10 +72,15 @@ __CPROVER_ensures(__CPROVER_old(g_xq_n) == g_xq_watch
 
 /* ---- quadratic-residue oracle (sign byte of a serialized point) ---- */
 #ifdef RP_ISSQUARE
-int g_sq_n, g_sq_watch, g_sq_hit, g_sq_v; secp256k1_fe g_sq_a;
+struct g_sq_log { int n; int hit; int v; secp256k1_fe a; } g_sq;
+#define g_sq_n g_sq.n
+#define g_sq_hit g_sq.hit
+#define g_sq_v g_sq.v
+#define g_sq_a g_sq.a
+int g_sq_watch;
 static int secp256k1_fe_impl_is_square_var(const secp256k1_fe *a)
 __CPROVER_requires(__CPROVER_r_ok(a, sizeof(*a)))
-__CPROVER_assigns(g_sq_n, g_sq_hit, g_sq_v, g_sq_a)
+__CPROVER_assigns(g_sq)
 __CPROVER_ensures(__CPROVER_return_value == 0 || __CPROVER_return_value == 1)
 __CPROVER_ensures(g_sq_n == __CPROVER_old(g_sq_n) + 1)
 __CPROVER_ensures(__CPROVER_old(g_sq_n) == g_sq_watch
@@ -79,11 +91,20 @@ __CPROVER_ensures(__CPROVER_old(g_sq_n) == g_sq_watch
 
 /* ---- group additions / doublings: arbitrary group element in representation range ---- */
 #ifdef RP_ADD_GE
-int g_ag_n, g_ag_watch, g_ag_hit, g_ag_last_inf /* infinity flag of the most recent result */; secp256k1_gej *g_ag_rp; const secp256k1_gej *g_ag_ap; secp256k1_ge g_ag_b; const secp256k1_ge *g_ag_bp; secp256k1_gej g_ag_r;
+struct g_ag_log { int n; int hit; int last_inf /* infinity flag of the most recent result */; secp256k1_gej * rp; const secp256k1_gej * ap; secp256k1_ge b; const secp256k1_ge * bp; secp256k1_gej r; } g_ag;
+#define g_ag_n g_ag.n
+#define g_ag_hit g_ag.hit
+#define g_ag_last_inf g_ag.last_inf /* infinity flag of the most recent result */
+#define g_ag_rp g_ag.rp
+#define g_ag_ap g_ag.ap
+#define g_ag_b g_ag.b
+#define g_ag_bp g_ag.bp
+#define g_ag_r g_ag.r
+int g_ag_watch;
 static void secp256k1_gej_add_ge_var(secp256k1_gej *r, const secp256k1_gej *a, const secp256k1_ge *b, secp256k1_fe *rzr)
 __CPROVER_requires(__CPROVER_w_ok(r, sizeof(*r)) && __CPROVER_r_ok(a, sizeof(*a)) && __CPROVER_r_ok(b, sizeof(*b)) && rzr == NULL)
 __CPROVER_requires(gej_ok(a) && ge_ok(b))
-__CPROVER_assigns(*r, g_ag_n, g_ag_hit, g_ag_rp, g_ag_ap, g_ag_b, g_ag_bp, g_ag_r, g_ag_last_inf)
+__CPROVER_assigns(*r, g_ag)
 __CPROVER_ensures(gej_ok(r))
 __CPROVER_ensures(g_ag_n == __CPROVER_old(g_ag_n) + 1 && g_ag_last_inf == r->infinity)
 __CPROVER_ensures(__CPROVER_old(g_ag_n) == g_ag_watch
@@ -108,20 +129,33 @@ __CPROVER_ensures(gej_ok(r))
 
 /* ---- value*H and blind*G + value*H ---- */
 #ifdef RP_PED_SMALL
-int g_ps_n; uint64_t g_ps_gn0; const secp256k1_ge *g_ps_genp0; secp256k1_gej *g_ps_rp0;
+struct g_ps_log { int n; uint64_t gn0; const secp256k1_ge * genp0; secp256k1_gej * rp0; } g_ps;
+#define g_ps_n g_ps.n
+#define g_ps_gn0 g_ps.gn0
+#define g_ps_genp0 g_ps.genp0
+#define g_ps_rp0 g_ps.rp0
 static void secp256k1_pedersen_ecmult_small(secp256k1_gej *r, uint64_t gn, const secp256k1_ge* genp)
 __CPROVER_requires(__CPROVER_w_ok(r, sizeof(*r)) && __CPROVER_r_ok(genp, sizeof(*genp)) && ge_ok(genp))
-__CPROVER_assigns(*r, g_ps_n, g_ps_gn0, g_ps_genp0, g_ps_rp0)
+__CPROVER_assigns(*r, g_ps)
 __CPROVER_ensures(gej_ok(r))
 __CPROVER_ensures(g_ps_n == __CPROVER_old(g_ps_n) + 1)
 __CPROVER_ensures(__CPROVER_old(g_ps_n) == 0 ? (g_ps_gn0 == gn && g_ps_genp0 == genp && g_ps_rp0 == r) : (RP_KEEP(g_ps_gn0) && RP_KEEP(g_ps_genp0) && RP_KEEP(g_ps_rp0)))
 ;
 #endif
 #ifdef RP_PED
-int g_pd_n, g_pd_watch, g_pd_hit; uint64_t g_pd_value; secp256k1_scalar g_pd_sec; const secp256k1_scalar *g_pd_secp; const secp256k1_ge *g_pd_genp; secp256k1_gej *g_pd_rp; int g_pd_inf;
+struct g_pd_log { int n; int hit; uint64_t value; secp256k1_scalar sec; const secp256k1_scalar * secp; const secp256k1_ge * genp; secp256k1_gej * rp; int inf; } g_pd;
+#define g_pd_n g_pd.n
+#define g_pd_hit g_pd.hit
+#define g_pd_value g_pd.value
+#define g_pd_sec g_pd.sec
+#define g_pd_secp g_pd.secp
+#define g_pd_genp g_pd.genp
+#define g_pd_rp g_pd.rp
+#define g_pd_inf g_pd.inf
+int g_pd_watch;
 static void secp256k1_pedersen_ecmult(const secp256k1_ecmult_gen_context *ecmult_gen_ctx, secp256k1_gej *rj, const secp256k1_scalar *sec, uint64_t value, const secp256k1_ge* genp)
 __CPROVER_requires(ecmult_gen_ctx != NULL && __CPROVER_w_ok(rj, sizeof(*rj)) && __CPROVER_r_ok(sec, sizeof(*sec)) && __CPROVER_r_ok(genp, sizeof(*genp)) && ge_ok(genp))
-__CPROVER_assigns(*rj, g_pd_n, g_pd_hit, g_pd_value, g_pd_sec, g_pd_secp, g_pd_genp, g_pd_rp, g_pd_inf)
+__CPROVER_assigns(*rj, g_pd)
 __CPROVER_ensures(gej_ok(rj))
 __CPROVER_ensures(g_pd_n == __CPROVER_old(g_pd_n) + 1)
 __CPROVER_ensures(__CPROVER_old(g_pd_n) == g_pd_watch
@@ -133,13 +167,20 @@ __CPROVER_ensures(__CPROVER_old(g_pd_n) == g_pd_watch
 /* ---- pub_expand as an oracle (gates units; the real body is checked in the C07 units):
  *      fills the non-first members of every ring of pubs[128] ---- */
 #ifdef RP_PUB_EXPAND
-int g_pe_n, g_pe_exp; size_t g_pe_rings, g_pe_rs_k; secp256k1_gej *g_pe_pubs; size_t *g_pe_rsizes; const secp256k1_ge *g_pe_genp;
+struct g_pe_log { int n; int exp; size_t rings; size_t rs_k; secp256k1_gej * pubs; size_t * rsizes; const secp256k1_ge * genp; } g_pe;
+#define g_pe_n g_pe.n
+#define g_pe_exp g_pe.exp
+#define g_pe_rings g_pe.rings
+#define g_pe_rs_k g_pe.rs_k
+#define g_pe_pubs g_pe.pubs
+#define g_pe_rsizes g_pe.rsizes
+#define g_pe_genp g_pe.genp
 static void secp256k1_rangeproof_pub_expand(secp256k1_gej *pubs, int exp, size_t *rsizes, size_t rings, const secp256k1_ge* genp)
 __CPROVER_requires(exp < 19 && rings >= 1 && rings <= 32)
 __CPROVER_requires(__CPROVER_r_ok(rsizes, rings * sizeof(size_t)) && __CPROVER_r_ok(genp, sizeof(*genp)) && ge_ok(genp))
 __CPROVER_requires(g_rp_k < rings ==> (rsizes[g_rp_k] >= 1 && rsizes[g_rp_k] <= 4))
 __CPROVER_requires(__CPROVER_w_ok(pubs, 128 * sizeof(secp256k1_gej)))
-__CPROVER_assigns(__CPROVER_object_whole(pubs), g_pe_n, g_pe_exp, g_pe_rings, g_pe_rs_k, g_pe_pubs, g_pe_rsizes, g_pe_genp)
+__CPROVER_assigns(__CPROVER_object_whole(pubs), g_pe)
 __CPROVER_ensures(g_pe_n == __CPROVER_old(g_pe_n) + 1)
 __CPROVER_ensures(__CPROVER_old(g_pe_n) == 0
     ? (g_pe_exp == exp && g_pe_rings == rings && g_pe_pubs == pubs && g_pe_rsizes == rsizes && g_pe_genp == genp && (g_rp_k < rings ==> g_pe_rs_k == rsizes[g_rp_k]))
@@ -149,8 +190,22 @@ __CPROVER_ensures(__CPROVER_old(g_pe_n) == 0
 
 /* ---- Borromean ring-signature verification as an oracle with verdict log ---- */
 #ifdef RP_BORRO_VERIFY
-int g_bv_n, g_bv_v; secp256k1_scalar *g_bv_ev; const unsigned char *g_bv_e0, *g_bv_m; const secp256k1_scalar *g_bv_s; const secp256k1_gej *g_bv_pubs;
-const size_t *g_bv_rsizes; size_t g_bv_nrings, g_bv_mlen, g_bv_rs_k; secp256k1_scalar g_bv_s_k; unsigned char g_bv_m_b, g_bv_e0_b; int g_bv_pub_inf_k;
+struct g_bv_log { int n; int v; secp256k1_scalar * ev; const unsigned char * e0; const unsigned char * m; const secp256k1_scalar * s; const secp256k1_gej * pubs; const size_t * rsizes; size_t nrings; size_t mlen; size_t rs_k; secp256k1_scalar s_k; unsigned char m_b; unsigned char e0_b; int pub_inf_k; } g_bv;
+#define g_bv_n g_bv.n
+#define g_bv_v g_bv.v
+#define g_bv_ev g_bv.ev
+#define g_bv_e0 g_bv.e0
+#define g_bv_m g_bv.m
+#define g_bv_s g_bv.s
+#define g_bv_pubs g_bv.pubs
+#define g_bv_rsizes g_bv.rsizes
+#define g_bv_nrings g_bv.nrings
+#define g_bv_mlen g_bv.mlen
+#define g_bv_rs_k g_bv.rs_k
+#define g_bv_s_k g_bv.s_k
+#define g_bv_m_b g_bv.m_b
+#define g_bv_e0_b g_bv.e0_b
+#define g_bv_pub_inf_k g_bv.pub_inf_k
 int secp256k1_borromean_verify(const secp256k1_hash_ctx *hash_ctx, secp256k1_scalar *evalues, const unsigned char *e0,
  const secp256k1_scalar *s, const secp256k1_gej *pubs, const size_t *rsizes, size_t nrings, const unsigned char *m, size_t mlen)
 __CPROVER_requires(hash_ctx != NULL && __CPROVER_r_ok(e0, 32) && nrings >= 1 && nrings <= 32 && mlen == 32 && __CPROVER_r_ok(m, mlen))
@@ -160,7 +215,7 @@ __CPROVER_requires(__CPROVER_r_ok(s, rp_sum(rsizes, nrings) * sizeof(secp256k1_s
 __CPROVER_requires(g_rp_k < rp_sum(rsizes, nrings) ==> scalar_ok(&s[g_rp_k]))
 __CPROVER_requires(evalues == NULL || __CPROVER_w_ok(evalues, rp_sum(rsizes, nrings) * sizeof(secp256k1_scalar)))
 __CPROVER_assigns(evalues != NULL: __CPROVER_object_whole(evalues))
-__CPROVER_assigns(g_bv_n, g_bv_v, g_bv_ev, g_bv_e0, g_bv_m, g_bv_s, g_bv_pubs, g_bv_rsizes, g_bv_nrings, g_bv_mlen, g_bv_rs_k, g_bv_s_k, g_bv_m_b, g_bv_e0_b, g_bv_pub_inf_k)
+__CPROVER_assigns(g_bv)
 __CPROVER_ensures(__CPROVER_return_value == 0 || __CPROVER_return_value == 1)
 __CPROVER_ensures(g_bv_n == __CPROVER_old(g_bv_n) + 1)
 __CPROVER_ensures(__CPROVER_old(g_bv_n) == 0
@@ -175,7 +230,17 @@ __CPROVER_ensures(__CPROVER_old(g_bv_n) == 0
 
 /* ---- Borromean signing as an oracle ---- */
 #ifdef RP_BORRO_SIGN
-int g_bs_n; unsigned char *g_bs_e0; const unsigned char *g_bs_m; size_t g_bs_nrings, g_bs_mlen, g_bs_rs_k, g_bs_si_k; const secp256k1_gej *g_bs_pubs; secp256k1_scalar *g_bs_s; unsigned char g_bs_m_b;
+struct g_bs_log { int n; unsigned char * e0; const unsigned char * m; size_t nrings; size_t mlen; size_t rs_k; size_t si_k; const secp256k1_gej * pubs; secp256k1_scalar * s; unsigned char m_b; } g_bs;
+#define g_bs_n g_bs.n
+#define g_bs_e0 g_bs.e0
+#define g_bs_m g_bs.m
+#define g_bs_nrings g_bs.nrings
+#define g_bs_mlen g_bs.mlen
+#define g_bs_rs_k g_bs.rs_k
+#define g_bs_si_k g_bs.si_k
+#define g_bs_pubs g_bs.pubs
+#define g_bs_s g_bs.s
+#define g_bs_m_b g_bs.m_b
 int secp256k1_borromean_sign(const secp256k1_hash_ctx *hash_ctx, const secp256k1_ecmult_gen_context *ecmult_gen_ctx,
  unsigned char *e0, secp256k1_scalar *s, const secp256k1_gej *pubs, const secp256k1_scalar *k, const secp256k1_scalar *sec,
  const size_t *rsizes, const size_t *secidx, size_t nrings, const unsigned char *m, size_t mlen)
@@ -184,7 +249,7 @@ __CPROVER_requires(__CPROVER_r_ok(rsizes, nrings * sizeof(size_t)) && __CPROVER_
 __CPROVER_requires(__CPROVER_r_ok(k, nrings * sizeof(secp256k1_scalar)) && __CPROVER_r_ok(sec, nrings * sizeof(secp256k1_scalar)))
 __CPROVER_requires(g_rp_k < nrings ==> (rsizes[g_rp_k] >= 1 && rsizes[g_rp_k] <= 4 && secidx[g_rp_k] < rsizes[g_rp_k]))
 __CPROVER_requires(__CPROVER_rw_ok(s, rp_sum(rsizes, nrings) * sizeof(secp256k1_scalar)) && __CPROVER_r_ok(pubs, rp_sum(rsizes, nrings) * sizeof(secp256k1_gej)))
-__CPROVER_assigns(__CPROVER_object_upto(e0, 32), __CPROVER_object_whole(s), g_bs_n, g_bs_e0, g_bs_m, g_bs_nrings, g_bs_mlen, g_bs_rs_k, g_bs_si_k, g_bs_pubs, g_bs_s, g_bs_m_b)
+__CPROVER_assigns(__CPROVER_object_upto(e0, 32), __CPROVER_object_whole(s), g_bs)
 __CPROVER_ensures(__CPROVER_return_value == 0 || __CPROVER_return_value == 1)
 __CPROVER_ensures(g_bs_n == __CPROVER_old(g_bs_n) + 1)
 __CPROVER_ensures(__CPROVER_old(g_bs_n) == 0
@@ -199,8 +264,23 @@ __CPROVER_ensures(__CPROVER_old(g_bs_n) == 0
  *      shown to ask for the same stream.  The caller-side obligations are the capacities of the
  *      fixed arrays it hands over: sec[32], s[128], message[4096] and len <= 10. ---- */
 #ifdef RP_GENRAND
-int g_gr_n; const unsigned char *g_gr_nonce, *g_gr_proof; const secp256k1_ge *g_gr_commit, *g_gr_genp; size_t g_gr_len, g_gr_rings, g_gr_rs_k; unsigned char g_gr_proof_b; unsigned char *g_gr_msg;
-secp256k1_scalar *g_gr_sec, *g_gr_s; secp256k1_ge g_gr_commit_v, g_gr_genp_v; unsigned char g_gr_nonce_b; unsigned char g_gr_hdr[10];
+struct g_gr_log { int n; const unsigned char * nonce; const unsigned char * proof; const secp256k1_ge * commit; const secp256k1_ge * genp; size_t len; size_t rings; size_t rs_k; unsigned char proof_b; unsigned char * msg; secp256k1_scalar * sec; secp256k1_scalar * s; secp256k1_ge commit_v; secp256k1_ge genp_v; unsigned char nonce_b; unsigned char hdr[10]; } g_gr;
+#define g_gr_n g_gr.n
+#define g_gr_nonce g_gr.nonce
+#define g_gr_proof g_gr.proof
+#define g_gr_commit g_gr.commit
+#define g_gr_genp g_gr.genp
+#define g_gr_len g_gr.len
+#define g_gr_rings g_gr.rings
+#define g_gr_rs_k g_gr.rs_k
+#define g_gr_proof_b g_gr.proof_b
+#define g_gr_msg g_gr.msg
+#define g_gr_sec g_gr.sec
+#define g_gr_s g_gr.s
+#define g_gr_commit_v g_gr.commit_v
+#define g_gr_genp_v g_gr.genp_v
+#define g_gr_nonce_b g_gr.nonce_b
+#define g_gr_hdr g_gr.hdr
 #define GR_HDR(j) ((j) < len ==> g_gr_hdr[j] == proof[j])
 #define GR_HDR_KEEP(j) (g_gr_hdr[j] == __CPROVER_old(g_gr_hdr[j]))
 static int secp256k1_rangeproof_genrand(const secp256k1_hash_ctx *hash_ctx, secp256k1_scalar *sec, secp256k1_scalar *s, unsigned char *message,
@@ -212,7 +292,7 @@ __CPROVER_requires(g_rp_k < rings ==> (rsizes[g_rp_k] >= 1 && rsizes[g_rp_k] <= 
 __CPROVER_requires(__CPROVER_w_ok(sec, 32 * sizeof(secp256k1_scalar)) && __CPROVER_w_ok(s, 128 * sizeof(secp256k1_scalar)) && (message == NULL || __CPROVER_rw_ok(message, 4096)))
 __CPROVER_assigns(__CPROVER_object_whole(sec), __CPROVER_object_whole(s))
 __CPROVER_assigns(message != NULL: __CPROVER_object_whole(message))
-__CPROVER_assigns(g_gr_n, g_gr_nonce, g_gr_proof, g_gr_commit, g_gr_genp, g_gr_len, g_gr_rings, g_gr_rs_k, g_gr_proof_b, g_gr_msg, g_gr_sec, g_gr_s, g_gr_commit_v, g_gr_genp_v, g_gr_nonce_b, g_gr_hdr)
+__CPROVER_assigns(g_gr)
 __CPROVER_ensures(__CPROVER_return_value == 0 || __CPROVER_return_value == 1)
 __CPROVER_ensures(g_gr_n == __CPROVER_old(g_gr_n) + 1)
 __CPROVER_ensures(__CPROVER_old(g_gr_n) == 0
@@ -222,6 +302,21 @@ __CPROVER_ensures(__CPROVER_old(g_gr_n) == 0
        GR_HDR(0) && GR_HDR(1) && GR_HDR(2) && GR_HDR(3) && GR_HDR(4) && GR_HDR(5) && GR_HDR(6) && GR_HDR(7) && GR_HDR(8) && GR_HDR(9))
     : (GR_HDR_KEEP(0) && GR_HDR_KEEP(1) && GR_HDR_KEEP(2) && GR_HDR_KEEP(3) && GR_HDR_KEEP(4) && GR_HDR_KEEP(5) && GR_HDR_KEEP(6) && GR_HDR_KEEP(7) && GR_HDR_KEEP(8) && GR_HDR_KEEP(9) && RP_KEEP(g_gr_nonce) && RP_KEEP(g_gr_proof) && RP_KEEP(g_gr_commit) && RP_KEEP(g_gr_genp) && RP_KEEP(g_gr_len) && RP_KEEP(g_gr_rings) && RP_KEEP(g_gr_msg) &&
        RP_KEEP(g_gr_sec) && RP_KEEP(g_gr_s) && GE_KEEP(g_gr_commit_v) && GE_KEEP(g_gr_genp_v) && RP_KEEP(g_gr_rs_k) && RP_KEEP(g_gr_proof_b) && RP_KEEP(g_gr_nonce_b)))
+;
+#endif
+
+
+/* ---- rewind algebra: x = (k - s)/e and k = s + x*e; arbitrary scalar in representation range ---- */
+#ifdef RP_RECOVER
+static void secp256k1_rangeproof_recover_x(secp256k1_scalar *x, const secp256k1_scalar *k, const secp256k1_scalar *e, const secp256k1_scalar *s)
+__CPROVER_requires(__CPROVER_w_ok(x, sizeof(*x)) && __CPROVER_r_ok(k, sizeof(*k)) && __CPROVER_r_ok(e, sizeof(*e)) && __CPROVER_r_ok(s, sizeof(*s)))
+__CPROVER_assigns(*x)
+__CPROVER_ensures(scalar_ok(x))
+;
+static void secp256k1_rangeproof_recover_k(secp256k1_scalar *k, const secp256k1_scalar *x, const secp256k1_scalar *e, const secp256k1_scalar *s)
+__CPROVER_requires(__CPROVER_w_ok(k, sizeof(*k)) && __CPROVER_r_ok(x, sizeof(*x)) && __CPROVER_r_ok(e, sizeof(*e)) && __CPROVER_r_ok(s, sizeof(*s)))
+__CPROVER_assigns(*k)
+__CPROVER_ensures(scalar_ok(k))
 ;
 #endif
 
@@ -255,49 +350,92 @@ __CPROVER_ensures(g_rp_b < n ==> ((unsigned char*)dst)[g_rp_b] == ((const unsign
  * nothing assigns), which is sound for "for all positions" because the watch is arbitrary.
  * The functional part is enforced against the real bodies in units C10.leaf_* (RP_LEAF_ENFORCE drops
  * the ghost-log clauses, which only constrain ghost variables). */
-#ifdef RP_SET_B32
-const unsigned char *g_sb_wp;            /* watch pointer: never assigned */
-int g_sb_n, g_sb_hit, g_sb_wovf, g_sb_or /* disjunction of all overflow verdicts so far */; secp256k1_scalar g_sb_wr;
+#ifdef RP_LEAF_ENFORCE
+/* enforced in C10.leaf_*: frame, representation invariant of the outputs, verdict in {0,1} - for every input */
 static void secp256k1_scalar_set_b32(secp256k1_scalar *r, const unsigned char *b32, int *overflow)
 __CPROVER_requires(__CPROVER_w_ok(r, sizeof(*r)) && __CPROVER_r_ok(b32, 32) && (overflow == NULL || __CPROVER_w_ok(overflow, sizeof(int))))
-# ifdef RP_LEAF_ENFORCE
 __CPROVER_assigns(*r) __CPROVER_assigns(overflow != NULL: *overflow)
-# else
-__CPROVER_assigns(*r, g_sb_n, g_sb_hit, g_sb_wovf, g_sb_or, g_sb_wr) __CPROVER_assigns(overflow != NULL: *overflow)
-__CPROVER_ensures(g_sb_n == __CPROVER_old(g_sb_n) + 1)
-__CPROVER_ensures(overflow != NULL ==> g_sb_or == (__CPROVER_old(g_sb_or) || *overflow))
-__CPROVER_ensures(overflow == NULL ==> RP_KEEP(g_sb_or))
-__CPROVER_ensures(b32 == g_sb_wp ? (g_sb_hit == 1 && SC_EQ(g_sb_wr, *r) && (overflow != NULL ==> g_sb_wovf == *overflow))
-                                 : (RP_KEEP(g_sb_hit) && SC_KEEP(g_sb_wr) && RP_KEEP(g_sb_wovf)))
-# endif
 __CPROVER_ensures(scalar_ok(r))
 __CPROVER_ensures(overflow != NULL ==> (*overflow == 0 || *overflow == 1))
-__CPROVER_ensures(b32 == g_sb_wp ==> (sval(r) == (be256(g_sb_wp) >= N_() ? be256(g_sb_wp) - N_() : be256(g_sb_wp)) && (overflow != NULL ==> *overflow == (be256(g_sb_wp) >= N_()))))
+__CPROVER_ensures(sval(r) == (be256(b32) >= N_() ? be256(b32) - N_() : be256(b32)) && (overflow != NULL ==> *overflow == (be256(b32) >= N_())))
 ;
-#endif
-#ifdef RP_FE_SET_B32_LIMIT
-const unsigned char *g_fl_wp;            /* watch pointer: never assigned */
-int g_fl_n, g_fl_hit, g_fl_wv, g_fl_and /* conjunction of all verdicts so far */; secp256k1_fe g_fl_wr;
 static int secp256k1_fe_impl_set_b32_limit(secp256k1_fe *r, const unsigned char *a)
 __CPROVER_requires(__CPROVER_w_ok(r, sizeof(*r)) && __CPROVER_r_ok(a, 32))
-# ifdef RP_LEAF_ENFORCE
 __CPROVER_assigns(*r)
-# else
-__CPROVER_assigns(*r, g_fl_n, g_fl_hit, g_fl_wv, g_fl_and, g_fl_wr)
-__CPROVER_ensures(g_fl_n == __CPROVER_old(g_fl_n) + 1 && g_fl_and == (__CPROVER_old(g_fl_and) && __CPROVER_return_value))
-__CPROVER_ensures(a == g_fl_wp ? (g_fl_hit == 1 && FE_EQ(g_fl_wr, *r) && g_fl_wv == __CPROVER_return_value) : (RP_KEEP(g_fl_hit) && FE_KEEP(g_fl_wr) && RP_KEEP(g_fl_wv)))
-# endif
-__CPROVER_ensures((__CPROVER_return_value == 0 || __CPROVER_return_value == 1) && fe_mag(r, 1) && (r->n[0] >> 52) == 0 && (r->n[1] >> 52) == 0 && (r->n[2] >> 52) == 0 && (r->n[3] >> 52) == 0 && (r->n[4] >> 48) == 0)
-__CPROVER_ensures(a == g_fl_wp ==> (__CPROVER_return_value == (be256(g_fl_wp) < P_()) && fval(r) == be256(g_fl_wp)))
+__CPROVER_ensures((__CPROVER_return_value == 0 || __CPROVER_return_value == 1) && (r->n[0] >> 52) == 0 && (r->n[1] >> 52) == 0 && (r->n[2] >> 52) == 0 && (r->n[3] >> 52) == 0 && (r->n[4] >> 48) == 0)
+__CPROVER_ensures(__CPROVER_return_value == (be256(a) < P_()) && fval(r) == be256(a))
 ;
+#endif
+#ifdef RP_STUB_READERS
+/* Call-site substitution of the two byte readers by stubs (preprocessor rename of the USES that follow
+ * this header; the definitions in scalar_impl.h / field_impl.h are included first and stay real):
+ *   - at the watched buffer position the stub RUNS THE REAL FUNCTION on the watched bytes;
+ *   - elsewhere it returns an arbitrary value satisfying the invariant proved in C10.leaf_*
+ *     (scalar < n / limbs in range, verdict in {0,1}) and checks that 32 bytes are readable.
+ * Reason: a DFCC contract replacement costs ~1 s of symbolic execution per call site and the real bodies
+ * read 32 bytes per call at symbolic offsets of one 5 KB buffer (quadratic array constraints); verify_impl
+ * makes up to 31 + 128 such calls. */
+#include "src/field_impl.h"
+#include "src/scalar_impl.h"
+uint64_t nondet_rp_u64(void); int nondet_rp_int(void);
+const unsigned char *g_sb_wp;            /* watch pointer: never assigned by code or stubs */
+struct g_sb_log { int n, hit, wovf, any /* disjunction of all overflow verdicts so far */; secp256k1_scalar wr; } g_sb;
+#define g_sb_n g_sb.n
+#define g_sb_hit g_sb.hit
+#define g_sb_wovf g_sb.wovf
+#define g_sb_or g_sb.any
+#define g_sb_wr g_sb.wr
+static void rp_stub_scalar_set_b32(secp256k1_scalar *r, const unsigned char *b32, int *overflow) {
+    int ov;
+    __CPROVER_assert(__CPROVER_r_ok(b32, 32), "scalar_set_b32 call site: 32 readable bytes");
+    if (b32 == g_sb_wp) {
+        secp256k1_scalar_set_b32(r, g_sb_wp, &ov);
+        g_sb.hit = 1; g_sb.wovf = ov; g_sb.wr = *r;
+    } else {
+        secp256k1_scalar t;
+        t.d[0] = nondet_rp_u64(); t.d[1] = nondet_rp_u64(); t.d[2] = nondet_rp_u64(); t.d[3] = nondet_rp_u64(); ov = nondet_rp_int();
+        __CPROVER_assume(scalar_ok(&t) && (ov == 0 || ov == 1));      /* invariant proved in C10.leaf_scalar_set_b32 */
+        *r = t;
+    }
+    if (overflow != NULL) { *overflow = ov; g_sb.any = g_sb.any || ov; }
+    g_sb.n++;
+}
+const unsigned char *g_fl_wp;            /* watch pointer: never assigned by code or stubs */
+struct g_fl_log { int n, hit, wv, all /* conjunction of all verdicts so far */; secp256k1_fe wr; } g_fl;
+#define g_fl_n g_fl.n
+#define g_fl_hit g_fl.hit
+#define g_fl_wv g_fl.wv
+#define g_fl_and g_fl.all
+#define g_fl_wr g_fl.wr
+static int rp_stub_fe_set_b32_limit(secp256k1_fe *r, const unsigned char *a) {
+    int ret;
+    __CPROVER_assert(__CPROVER_r_ok(a, 32), "fe_set_b32_limit call site: 32 readable bytes");
+    if (a == g_fl_wp) {
+        ret = secp256k1_fe_impl_set_b32_limit(r, g_fl_wp);
+        g_fl.hit = 1; g_fl.wv = ret; g_fl.wr = *r;
+    } else {
+        secp256k1_fe t;
+        t.n[0] = nondet_rp_u64(); t.n[1] = nondet_rp_u64(); t.n[2] = nondet_rp_u64(); t.n[3] = nondet_rp_u64(); t.n[4] = nondet_rp_u64(); ret = nondet_rp_int();
+        __CPROVER_assume((t.n[0] >> 52) == 0 && (t.n[1] >> 52) == 0 && (t.n[2] >> 52) == 0 && (t.n[3] >> 52) == 0 && (t.n[4] >> 48) == 0 && (ret == 0 || ret == 1)); /* proved in C10.leaf_fe_set_b32_limit */
+        *r = t;
+    }
+    g_fl.all = g_fl.all && ret;
+    g_fl.n++;
+    return ret;
+}
+#define secp256k1_scalar_set_b32 rp_stub_scalar_set_b32
+#define secp256k1_fe_impl_set_b32_limit rp_stub_fe_set_b32_limit
 #endif
 #ifdef RP_GET_B32
 /* replacement form used by the signing units: the frame is over-approximated to the whole destination
  * object (one fresh array instead of 32 symbolic-offset updates); w_ok(bin,32) is the bounds obligation */
-int g_gb_n; unsigned char *g_gb_first, *g_gb_last;
+struct g_gb_log { int n; unsigned char * first; unsigned char * last; } g_gb;
+#define g_gb_n g_gb.n
+#define g_gb_first g_gb.first
+#define g_gb_last g_gb.last
 static void secp256k1_scalar_get_b32(unsigned char *bin, const secp256k1_scalar* a)
 __CPROVER_requires(__CPROVER_w_ok(bin, 32) && __CPROVER_r_ok(a, sizeof(*a)))
-__CPROVER_assigns(__CPROVER_object_whole(bin), g_gb_n, g_gb_first, g_gb_last)
+__CPROVER_assigns(__CPROVER_object_whole(bin), g_gb)
 __CPROVER_ensures(g_gb_n == __CPROVER_old(g_gb_n) + 1 && g_gb_last == bin && g_gb_first == (__CPROVER_old(g_gb_n) == 0 ? bin : __CPROVER_old(g_gb_first)))
 ;
 #endif
@@ -318,21 +456,32 @@ __CPROVER_ensures(__CPROVER_return_value == dst)
 
 /* ---- watch-style contracts for the two curve callees of secp256k1_borromean_verify ---- */
 #ifdef RP_ECMULT_WATCH
-int g_em_n, g_em_watch, g_em_hit, g_em_rinf; const secp256k1_gej *g_em_ap; const secp256k1_scalar *g_em_ngp; secp256k1_scalar g_em_na;
+struct g_em_log { int n; int hit; int rinf; const secp256k1_gej * ap; const secp256k1_scalar * ngp; secp256k1_scalar na; } g_em;
+#define g_em_n g_em.n
+#define g_em_hit g_em.hit
+#define g_em_rinf g_em.rinf
+#define g_em_ap g_em.ap
+#define g_em_ngp g_em.ngp
+#define g_em_na g_em.na
+int g_em_watch;
 static void secp256k1_ecmult(secp256k1_gej *r, const secp256k1_gej *a, const secp256k1_scalar *na, const secp256k1_scalar *ng)
 __CPROVER_requires(__CPROVER_w_ok(r, sizeof(*r)) && __CPROVER_r_ok(a, sizeof(*a)) && gej_ok(a))
 __CPROVER_requires(__CPROVER_r_ok(na, sizeof(*na)) && scalar_ok(na) && __CPROVER_r_ok(ng, sizeof(*ng)) && scalar_ok(ng))
-__CPROVER_assigns(*r, g_em_n, g_em_hit, g_em_rinf, g_em_ap, g_em_ngp, g_em_na)
+__CPROVER_assigns(*r, g_em)
 __CPROVER_ensures(gej_ok(r))
 __CPROVER_ensures(g_em_n == __CPROVER_old(g_em_n) + 1)
 __CPROVER_ensures(__CPROVER_old(g_em_n) == g_em_watch
     ? (g_em_hit == 1 && g_em_rinf == r->infinity && g_em_ap == a && g_em_ngp == ng && SC_EQ_OLD(g_em_na, *na))
     : (RP_KEEP(g_em_hit) && RP_KEEP(g_em_rinf) && RP_KEEP(g_em_ap) && RP_KEEP(g_em_ngp) && SC_KEEP(g_em_na)))
 ;
-int g_sg_n, g_sg_watch, g_sg_hit; secp256k1_ge g_sg_r;
+struct g_sgw_log { int n; int hit; secp256k1_ge r; } g_sgw;
+#define g_sg_n g_sgw.n
+#define g_sg_hit g_sgw.hit
+#define g_sg_r g_sgw.r
+int g_sg_watch;
 static void secp256k1_ge_set_gej_var(secp256k1_ge *r, secp256k1_gej *a)
 __CPROVER_requires(__CPROVER_w_ok(r, sizeof(*r)) && __CPROVER_rw_ok(a, sizeof(*a)) && gej_ok(a))
-__CPROVER_assigns(*r, *a, g_sg_n, g_sg_hit, g_sg_r)
+__CPROVER_assigns(*r, *a, g_sgw)
 __CPROVER_ensures(ge_ok1(r) && gej_ok(a) && r->infinity == __CPROVER_old(a->infinity))
 __CPROVER_ensures(g_sg_n == __CPROVER_old(g_sg_n) + 1)
 __CPROVER_ensures(__CPROVER_old(g_sg_n) == g_sg_watch ? (g_sg_hit == 1 && GE_EQ(g_sg_r, r)) : (RP_KEEP(g_sg_hit) && GE_KEEP(g_sg_r)))
